@@ -152,11 +152,13 @@ func loadProgram(specs []HarnessSpec) *Loaded {
 			}
 			overlay[filepath.Join(dir, overlayName(f))] = src
 			ld.ov[filepath.Join(dir, overlayName(f))] = filepath.Join(verifRoot, f)
-			if ld.stubs[h.Pkg] == nil {
-				ld.stubs[h.Pkg] = map[string]string{}
+			// stubs belong to the harness that lists the file, not to the package: two harnesses of one
+			// package may replace different functions (one of them may even be the subject of the other)
+			if ld.stubs[h.Name] == nil {
+				ld.stubs[h.Name] = map[string]string{}
 			}
 			for _, m := range stubRe.FindAllStringSubmatch(string(src), -1) {
-				ld.stubs[h.Pkg][m[1]] = m[2]
+				ld.stubs[h.Name][m[1]] = m[2]
 			}
 			if !seenPkg[h.Pkg] {
 				m := pkgRe.FindStringSubmatch(string(src))
@@ -202,9 +204,9 @@ func loadProgram(specs []HarnessSpec) *Loaded {
 }
 
 // resolve a stub target name to an ssa function name as printed by fn.String()
-func (ld *Loaded) resolveStubs(pkg string, hp *ssa.Package) (map[string]*ssa.Function, error) {
+func (ld *Loaded) resolveStubs(harness string, hp *ssa.Package) (map[string]*ssa.Function, error) {
 	out := map[string]*ssa.Function{}
-	for target, hname := range ld.stubs[pkg] {
+	for target, hname := range ld.stubs[harness] {
 		hf := hp.Func(hname)
 		if hf == nil {
 			return nil, fmt.Errorf("stub function %s not found", hname)
@@ -282,7 +284,7 @@ func runInstance(ld *Loaded, h HarnessSpec, ts TierSpec, args []int, opt *Option
 		res.Status, res.Msg = "unsupported", "harness does not resolve: "+h.Func
 		return
 	}
-	stubs, err := ld.resolveStubs(h.Pkg, hp)
+	stubs, err := ld.resolveStubs(h.Name, hp)
 	if err != nil {
 		res.Status, res.Msg = "unsupported", err.Error()
 		return
